@@ -4,7 +4,7 @@
 P=$1; D=$(readlink -f $2); shift 2
 cd /verif
 git -C /repo apply "$D" || { echo "SEEDED-CHECK $P: patch does not apply to /repo"; exit 2; }
-trap 'git -C /repo checkout -- . ; git -C /repo status --short | grep -v "^??" ' EXIT
+trap 'git -C /repo checkout -- . ; git -C /repo clean -fdq ; git -C /repo status --short' EXIT
 out=$(./check $P --tier quick --no-evidence --min-budget 30 "$@" 2>&1); rc=$?
 oracle=$(echo "$out" | grep "^violated oracle" | head -1)
 echo "SEEDED-CHECK $P rc=$rc $oracle $(echo "$out" | grep -E "^VIOLATION|held on|TROUBLE" | head -2 | tr '\n' ' ')"
